@@ -31,7 +31,7 @@ c.finish(
     assumptions=[
         "keys are compared as Go compares them: names byte-wise lexicographically (string <), integers numerically",
         "the number of entries is below maxChildren^(maxDepth-2) = 64^254 (the readers' documented nesting cap of 256 levels)",
-        "indirect references between nodes are not modelled: a tree is an inductive value (the harness checks that no node is shared)",
+        "the writer model builds an inductive tree (no object numbers); the readers are modelled twice: on trees (KeyTree.v) and on heaps of node objects connected by references with the seen set (KeyGraph.v), related by graph_lookup_tree / graph_all_tree",
     ],
     trusted=[
         "hand-written Gallina model coq/C17/KeyTree.v of internal/pdftree/{write,streaming,memory}.go, tied by correspondence",
